@@ -428,6 +428,7 @@ TRANSFORMERS = [
     (r"^std::result::Result::<T, E>::ok$", _result_ok),
     (r"^std::result::Result::<T, E>::(map_err|or_else)$", _okpres),
     (r"^errors::IoErrorExt::with_context$", _okpres),
+    (r"^std::result::Result::<T, E>::(map|and_then|inspect|inspect_err)$", lambda rest, term: [(0, (), OKFLOW)] if not rest else None),
     (r"^std::ops::(Index::index|IndexMut::index_mut)$", _index),
     (r"^std::iter::IntoIterator::into_iter$", _id()),
     (r"^std::sync::Mutex::<T>::lock$", lambda rest, term: [(0, rest[2:] if rest[:2] == (("v", "Ok"), ("f", "0")) else rest, IDENT)]),
